@@ -48,6 +48,7 @@ def run(ctx):
     with common.Lock("group-g17"):
         ok17, msg17 = ctx.tables("g17")
         ctx.coq_make("g17")
+    ctx.log("g17 built")
     ok, msg = ctx.tables(GROUP)
     if not ok:
         ctx.log("tables:", msg)
@@ -62,7 +63,9 @@ def run(ctx):
                                         os.path.join(common.VERIF, "coq", GROUP)])
     if bad_words:
         ob_failed.append("forbidden vernacular: " + "; ".join(bad_words))
+    ctx.log("g14 built")
     info = check_theorems(ctx)
+    ctx.log("theorems checked: %d/%d" % (len(info["discharged"]), len(info["theorems"])))
     if info["rc"] != 0:
         ob_failed.append("theorem %s in %s no longer checks: %s" % (
             info.get("failed_at"), PROP_FILE, " ".join(info["log"].split())[-400:]))
@@ -73,6 +76,7 @@ def run(ctx):
         ob_failed.append("model/proof files do not compile: %s\n%s" % (core_broken, log[-1500:]))
 
     hb, hlog = ctx.build_harness(HARNESS)
+    ctx.log("harness built")
     meta, res = {}, {}
     kinds = {"ecases": "eval", "scases": "sort", "pcases": "parse", "ipcases": "ip"}
     bad = {k: {"M": [], "P": [], "U": []} for k in kinds}
@@ -92,7 +96,9 @@ def run(ctx):
             ob_failed.append("harness failed: " + out[-800:])
         else:
             meta = json.load(open(os.path.join(ctx.work, "meta.json")))
+            ctx.log("harness ran: %s" % meta.get("counts"))
             res = coq_eval(ctx, meta["shards"])
+            ctx.log("shards evaluated")
             for shard, lg in res["_errors"]:
                 ob_failed.append("correspondence shard %s did not evaluate: %s" % (shard, lg[-600:]))
             src = {k: load_jsonl(os.path.join(ctx.work, k + ".jsonl")) for k in kinds}
